@@ -121,6 +121,9 @@ func (l ListSpec) Build() *astisub.Subtitles {
 		var m astisub.Metadata
 		b, _ := json.Marshal(l.Meta)
 		_ = json.Unmarshal(b, &m)
+		if m.Comments != nil { // spare capacity, as a slice that was grown by append has it
+			m.Comments = append(make([]string, 0, len(m.Comments)+3), m.Comments...)
+		}
 		s.Metadata = &m
 	}
 	all := map[string]*astisub.Style{}
@@ -142,9 +145,14 @@ func (l ListSpec) Build() *astisub.Subtitles {
 		}
 		s.Regions[rg.ID] = r
 	}
+	s.Items = make([]*astisub.Item, 0, len(l.Items)+2)
 	for _, it := range l.Items {
 		i := &astisub.Item{StartAt: time.Duration(it.StartMs) * time.Millisecond, EndAt: time.Duration(it.EndMs) * time.Millisecond,
 			Index: it.Index, InlineStyle: cloneAttrs(it.Attrs), Comments: append([]string(nil), it.Comments...)}
+		if len(it.Comments) > 0 {
+			i.Comments = append(make([]string, 0, len(it.Comments)+2), it.Comments...)
+		}
+		i.Lines = make([]astisub.Line, 0, len(it.Lines)+1)
 		if it.Style != "" {
 			i.Style = all[it.Style]
 		}
@@ -152,7 +160,7 @@ func (l ListSpec) Build() *astisub.Subtitles {
 			i.Region = s.Regions[it.Region]
 		}
 		for _, ln := range it.Lines {
-			line := astisub.Line{VoiceName: ln.Voice}
+			line := astisub.Line{VoiceName: ln.Voice, Items: make([]astisub.LineItem, 0, len(ln.Items)+1)}
 			for _, li := range ln.Items {
 				x := astisub.LineItem{Text: li.Text, InlineStyle: cloneAttrs(li.Attrs), StartAt: time.Duration(li.StartMs) * time.Millisecond}
 				if li.Style != "" {
